@@ -175,7 +175,13 @@ func consume(r io.Reader, mode, buf, maxIter int) (got []byte, err error, stuck 
 		return b, e, false
 	default:
 		var bb bytes.Buffer
-		_, e := io.Copy(&bb, r)
+		var e error
+		if buf%2 == 0 {
+			// a destination without ReadFrom: the copy goes through WriteTo's own buffer
+			_, e = io.Copy(plainWriter{&bb}, r)
+		} else {
+			_, e = io.Copy(&bb, r)
+		}
 		if e == nil {
 			e = io.EOF
 		}
@@ -266,9 +272,15 @@ func checkMulti(idx int, mc multiCase, mode, buf int) {
 		s, e, term := sp.build(byte(31 * (i + 1)))
 		srcs = append(srcs, s)
 		steps += len(s.steps) + 2
-		if mc.closable[i] {
+		switch {
+		case i == 0 && (idx+buf)%3 == 0 && !mc.closable[i]:
+			// a source that, while it is being read, copies ANOTHER MultiReaderCloser of its own to the end
+			// (a reader layered on a second stream): the two streams must not share anything
+			readers = append(readers, &nestingSrc{src: s, idx: idx})
+			rec.Count("multi.source_that_copies_another_stream_while_read", 1)
+		case mc.closable[i]:
 			readers = append(readers, closableSrc{s})
-		} else {
+		default:
 			readers = append(readers, s)
 		}
 		if !ended {
@@ -340,6 +352,33 @@ func checkMulti(idx int, mc multiCase, mode, buf int) {
 		}
 	}
 	rec.Count("multi.ok."+modeName(mode), 1)
+}
+
+// nestingSrc delivers its own data, then - before returning from that Read - runs a complete io.Copy of an
+// independent MultiReaderCloser into a plain writer, and checks that inner stream too.
+type nestingSrc struct {
+	*src
+	idx  int
+	done bool
+}
+
+type plainWriter struct{ b *bytes.Buffer } // no ReadFrom: io.Copy has to use WriteTo's buffer
+
+func (p plainWriter) Write(b []byte) (int, error) { return p.b.Write(b) }
+
+func (n *nestingSrc) Read(p []byte) (int, error) {
+	k, err := n.src.Read(p)
+	if !n.done {
+		n.done = true
+		want := bytes.Repeat([]byte("inner stream "), 40)
+		a, b := &src{data: want[:200], steps: []step{{n: 200}, {n: 0, err: io.EOF}}}, &src{data: want[200:], steps: []step{{n: len(want) - 200}, {n: 0, err: io.EOF}}}
+		var out bytes.Buffer
+		_, cerr := io.Copy(plainWriter{&out}, streams.NewMultiReaderCloser(a, b))
+		if cerr != nil || !bytes.Equal(out.Bytes(), want) {
+			rec.Violation(n.idx, "multi/nested-stream-bytes-differ", fmt.Sprintf("an independent MultiReaderCloser copied from inside a source's Read returned %d bytes (err %v) that are not the concatenation of its sources", out.Len(), cerr), nil)
+		}
+	}
+	return k, err
 }
 
 // poisonReader is what a caller puts into its own slice after handing the sources over; nobody may read it.
@@ -487,7 +526,7 @@ func TestCheck(t *testing.T) {
 	rec = mon.Open("C16")
 	defer rec.Close()
 	rec.Note("rule", "LimitReadCloser: every limit N in 0..16 x source length 0..N+3 x every composition of the source into read chunks (all compositions for lengths up to the tier's bound, seeded compositions above; see exhaustive_lengths) x EOF-with-last-data/EOF-alone x zero-length reads (none/before first/between/before EOF) x injected source error at every chunk position (with and without data) x consumer = Read loop with every buffer size 1..N+2, io.ReadAll, io.Copy. MultiReaderCloser: 1-4 scripted sources (closable/plain, one possibly failing) x the same consumers (io.Copy takes WriteTo). TeeReadCloser: every composition x closable/plain source and writer x writer failing at every offset. A case is one (component, parameters, script, consumer) tuple; tuples are enumerated without repetition, so distinct = evaluated; non-trivial = the source has at least one byte or a terminal error other than a bare EOF. Larger seeded streams (up to 200 KiB) on top.")
-	rec.Note("require", []string{"limit.oversize_rejected", "limit.within_limit", "multi.ok.Read", "multi.ok.io.Copy", "multi.ok.ReadAll", "multi.caller_slice_overwritten_after_construction", "multi.caller_slice_intact_checked", "tee.ok", "tee.writer_failure_checked", "limit.eof_with_n_plus_1th_byte"})
+	rec.Note("require", []string{"limit.oversize_rejected", "limit.within_limit", "multi.ok.Read", "multi.ok.io.Copy", "multi.ok.ReadAll", "multi.caller_slice_overwritten_after_construction", "multi.caller_slice_intact_checked", "multi.source_that_copies_another_stream_while_read", "tee.ok", "tee.writer_failure_checked", "limit.eof_with_n_plus_1th_byte"})
 	rec.Note("exhaustive_lengths", fmt.Sprintf("all compositions for source lengths 0..%d at every N (LimitReadCloser), 0..%d (TeeReadCloser)", mon.Pick(9, 15), mon.Pick(7, 11)))
 	gs := plan()
 	rec.Planned(len(gs))
